@@ -36,7 +36,25 @@ type stepMon struct {
 	maxLoop  int
 	kinds    map[string]int
 	wantKind bool
+	// no-progress detector: the same instruction with the same stack depths, over and over
+	lastPC, lastBT, lastCall, lastLoop int
+	lastStart, lastOff                 int
+	curStart, curOff                   int
+	same                               int
 }
+
+func stepPosHook(start, off int) {
+	if concMode.Load() || !sm.on {
+		return
+	}
+	sm.curStart, sm.curOff = start, off
+}
+
+// stuckAfter: consecutive steps at one pc with unchanged backtrack/call/loop depths, in the same attempt (start
+// offset) at the same input offset. No instruction of the VM leaves all of these unchanged when it completes (it
+// advances, jumps, calls, returns, backtracks, or the scan moves on to the next start offset), so a run this
+// long can only be an instruction that returns without doing any of these.
+const stuckAfter = 20000
 
 var sm stepMon
 
@@ -84,13 +102,15 @@ func instKind(i bytecode.SearchInstruction) string {
 	return fmt.Sprintf("%T", i)
 }
 
-func maybeYield() {
+func maybeYield() { maybeYieldMask(3) }
+
+func maybeYieldMask(mask uint64) {
 	if !yieldArmed.Load() {
 		return
 	}
 	n := yieldCtr.Add(0x9E3779B97F4A7C15)
 	n ^= n >> 29
-	if n&3 == 0 {
+	if n&mask == 0 {
 		yieldsTaken.Add(1)
 		runtime.Gosched()
 	}
@@ -121,6 +141,16 @@ func stepHook(pc int, inst bytecode.SearchInstruction, btDepth int, callDepth in
 	if sm.wantKind {
 		sm.kinds[instKind(inst)]++
 	}
+	if pc == sm.lastPC && btDepth == sm.lastBT && callDepth == sm.lastCall && loopDepth == sm.lastLoop && sm.curStart == sm.lastStart && sm.curOff == sm.lastOff && sm.steps > 1 {
+		sm.same++
+		if sm.same >= stuckAfter {
+			panic(budgetSentinel{"stuck at pc " + fmt.Sprint(pc) + " (" + instKind(inst) + ") after steps", sm.steps})
+		}
+	} else {
+		sm.same = 0
+		sm.lastPC, sm.lastBT, sm.lastCall, sm.lastLoop = pc, btDepth, callDepth, loopDepth
+		sm.lastStart, sm.lastOff = sm.curStart, sm.curOff
+	}
 	if sm.budget > 0 && sm.steps > sm.budget {
 		panic(budgetSentinel{"steps", sm.steps})
 	}
@@ -148,6 +178,7 @@ var lexOn bool
 
 func lexHook() {
 	if concMode.Load() {
+		maybeYieldMask(31) // the lexer runs before anything a compile might serialise: let lexing phases interleave
 		return
 	}
 	if !lexOn {
@@ -265,6 +296,7 @@ func yieldHook(site string) {
 
 func installHooks() {
 	engine.VerifStep = stepHook
+	engine.VerifStepPos = stepPosHook
 	ast.VerifLexRead = lexHook
 	ast.VerifYield = yieldHook
 	bytecode.VerifYield = yieldHook
